@@ -402,7 +402,11 @@ impl Check for HostileCheck {
                     }
                     _ => {
                         ctx.count("hostile_floats");
-                        let n = gen_len(src, small / 8);
+                        // The clock-recovery blocks emit one value per `sps`
+                        // inputs: give them enough for the output to fill up
+                        // (what happens on the sample that fills it depends on
+                        // the content around it).
+                        let n = gen_len(src, if matches!(which, 9 | 10) { 3 * small / 4 } else { small / 8 });
                         let data = hostile_f32(src, n);
                         let cdata: Vec<Complex> = data.chunks(2).map(|c| Complex::new(c[0], *c.get(1).unwrap_or(&0.0))).collect();
                         let c = match which {
